@@ -9,7 +9,8 @@ construct and every data-to-control conversion in the functions of the constant-
 `while` / `while let` / `match`, `for` loops whose iterator is not a literal range or a slice walk, `return` /
 `break` / `continue`, `?`, short-circuit `&&` / `||`, `bool::from(..)`, `.into()` that yields a `bool`
 (`let b: bool = c.into()`, or in a fn returning `bool`), `.is_some().into()`, `.unwrap_u8()`, `.unwrap()` /
-`.expect(..)`, every assertion macro, and indexing whose index mentions anything but literals and `for`-loop
+`.expect(..)`, iterator adaptors and consumers whose control flow depends on the ELEMENTS (`filter`, `skip_while`,
+`take_while`, `find`, `position`, `any`, `all`, `contains`, `max`/`min`, sorting, …; kind `iter:<name>`), every assertion macro, and indexing whose index mentions anything but literals and `for`-loop
 variables.
 
 The scope (`BRANCH_SCOPE` in `tools/rs2lean/inventory.py`) is *file based with reviewed exclusions*: every
@@ -411,6 +412,14 @@ def table : List Entry := [
     "for" "i in (0 .. $adds).filter(| x | x % 2 == 0)" 1
     .publicParameter
       "$adds is a macro literal (64, 52, 43, 37, 33); parity filter on the loop counter",
+  bsite! "curve25519-dalek/src/edwards.rs" "macro_rules!impl_basepoint_table::mul_base"
+    "iter:filter" "(0 .. $adds).filter(| x | x % 2 == 1)" 1
+    .publicLoopCounter
+      "the closure tests the parity of the loop COUNTER (0..$adds, a macro literal), never an element derived from the scalar",
+  bsite! "curve25519-dalek/src/edwards.rs" "macro_rules!impl_basepoint_table::mul_base"
+    "iter:filter" "(0 .. $adds).filter(| x | x % 2 == 0)" 1
+    .publicLoopCounter
+      "the closure tests the parity of the loop COUNTER (0..$adds, a macro literal), never an element derived from the scalar",
   bsite! "curve25519-dalek/src/edwards.rs" "EdwardsPoint::mul_by_pow_2"
     "debug_assert!" "debug_assert!(k > 0)" 1
     .publicParameter
